@@ -312,9 +312,12 @@ func primitivesEqual(x, y reflect.Value) (tried bool, err error) {
 		return
 	}
 
-	if isKnownPrimitive(x.Interface()) {
+	// judged by kind, not by exact type: a value of
+	// a defined type (type Attr string, type Level int)
+	// is as much a primitive as a string or an int is.
+	if isPrimitiveKind(x.Kind()) {
 		tried = true
-		if isKnownPrimitive(y.Interface()) {
+		if isPrimitiveKind(y.Kind()) {
 			if !x.Equal(y) {
 				err = errorf("primitive mismatch")
 			}
@@ -324,6 +327,22 @@ func primitivesEqual(x, y reflect.Value) (tried bool, err error) {
 	}
 
 	return
+}
+
+/*
+isPrimitiveKind returns a Boolean value indicative of whether k is
+the kind of a string, a Boolean or a number of any size.
+*/
+func isPrimitiveKind(k reflect.Kind) bool {
+	switch k {
+	case reflect.String, reflect.Bool,
+		reflect.Int, reflect.Int8, reflect.Int16, reflect.Int32, reflect.Int64,
+		reflect.Uint, reflect.Uint8, reflect.Uint16, reflect.Uint32, reflect.Uint64,
+		reflect.Float32, reflect.Float64, reflect.Complex64, reflect.Complex128:
+		return true
+	}
+
+	return false
 }
 
 func valuesEqual(x, y any) error {
